@@ -90,6 +90,7 @@ fn instance(rng: &mut TestRng, n: usize, logical: Vec<(usize, usize)>, access: b
         fail_pos: 0,
         mutation: None,
         labels: vec![],
+        walks: vec![],
     }
 }
 
@@ -126,6 +127,7 @@ pub fn probe_polynomial() -> bool {
         fail_pos: 0,
         mutation: None,
         labels: vec![],
+        walks: vec![],
     };
     match build_recorded(&case.spec) {
         Ok(b) => b.rank_visits <= (n * n + n) as u64,
